@@ -160,7 +160,7 @@ def close(a, b):
     return a.shape == b.shape and np.allclose(a, b, rtol=1e-10, atol=1e-12, equal_nan=True)
 ''' % dict(FUNC=FUNC)
 
-SNIPPET_ASSEMBLY = SNIPPET_HEAD + r'''
+SNIPPET_ASSEMBLY_TAIL = r'''
 IM = np.array(%(IM)s, dtype=%(dtype)r)
 method = %(method)r; direction = %(direction)r; ax = %(ax)r; mask = %(mask)r; topt = %(topt)r
 T = abel.Transform(IM, method=method, direction=direction, symmetry_axis=ax, use_quadrants=mask,
@@ -245,8 +245,8 @@ def search(ctx, rng, budget):
                 ok = False
                 what = 'unexpected exception %s: %s' % (type(e).__name__, e)
             if not ok:
-                sn = SNIPPET_ASSEMBLY % dict(IM=json.dumps(IM.tolist()), dtype='int64' if integer else 'float64',
-                                             method=method, direction=direction, ax=ax, mask=mask, topt=topt)
+                sn = SNIPPET_HEAD + SNIPPET_ASSEMBLY_TAIL % dict(IM=json.dumps(IM.tolist()), dtype='int64' if integer else 'float64',
+                                                                  method=method, direction=direction, ax=ax, mask=mask, topt=topt)
                 hits.append(Hit('four_quadrants', 'C05:assembly:%s:%s:axis=%r' % (method, direction, ax), what, sn,
                                 dict(method=method, direction=direction, symmetry_axis=repr(ax), use_quadrants=list(mask),
                                      shape=[n, m], transform_options={k: repr(v) for k, v in topt.items()})))
@@ -265,6 +265,34 @@ def search(ctx, rng, budget):
     hits += search_center(ctx, rng)
     hits += search_full_methods(ctx, rng)
     return hits, n_eval, len(distinct)
+
+
+ROUTING_SNIPPET = r'''
+import sys, warnings
+import numpy as np
+warnings.simplefilter('ignore')
+import abel, abel.tools.vmi
+rec = {}
+real = abel.tools.vmi.angular_integration_3D
+def spy(IM, **kw):
+    rec['a'] = kw
+    return real(IM, **kw)
+abel.tools.vmi.angular_integration_3D = spy
+IM = np.random.default_rng(0).normal(size=(9, 11)) + 5
+seq = [(dict(dr=0.5), None, dict(dr=0.5)), (dict(), None, dict()), (dict(dr=0.25), None, dict(dr=0.25)),
+       (dict(dr=0.25), dict(dr=2.0), dict(dr=2.0)), (dict(), dict(dt=0.2), dict(dt=0.2)), (dict(), None, dict())]
+bad = 0
+for step, (topt, aio, want) in enumerate(seq):
+    kw = dict(method='hansenlaw', angular_integration=True, transform_options=dict(topt))
+    if aio is not None:
+        kw['angular_integration_options'] = dict(aio)
+    rec.clear()
+    abel.Transform(IM, **kw)
+    ok = rec.get('a') == want
+    print('call', step + 1, 'angular_integration_3D received', rec.get('a'), 'expected', want, 'OK' if ok else 'WRONG')
+    bad += not ok
+sys.exit(1 if bad else 0)
+'''
 
 
 def search_routing(ctx, rng):
@@ -321,11 +349,37 @@ def search_routing(ctx, rng):
                                    angular_integration_options=dict(dr=2.0), transform_options=dict(dr=0.5))
                 if rec.get('a') != dict(dr=2.0):
                     problems.append((method, 'explicit dr of angular_integration_options overridden: %r' % (rec.get('a'),)))
+        # a sequence of calls: nothing may leak from one Transform to the next
+        # (e.g. through a shared mutable default argument)
+        import copy
+        import inspect
+        defaults0 = copy.deepcopy([p.default for p in inspect.signature(abel.Transform.__init__).parameters.values()
+                                   if isinstance(p.default, (dict, list))])
+        seq = [(dict(dr=0.5), None, dict(dr=0.5)), (dict(), None, dict()), (dict(dr=0.25), None, dict(dr=0.25)),
+               (dict(dr=0.25), dict(dr=2.0), dict(dr=2.0)), (dict(), dict(dt=0.2), dict(dt=0.2)), (dict(), None, dict())]
+        for method in ('hansenlaw', 'three_point'):
+            for step, (topt, aio, want) in enumerate(seq):
+                rec.clear()
+                topt_in, aio_in = dict(topt), (dict(aio) if aio is not None else None)
+                kw = dict(method=method, angular_integration=True, transform_options=topt_in)
+                if aio_in is not None:
+                    kw['angular_integration_options'] = aio_in
+                with patched(spy_t):
+                    abel.Transform(IM, **kw)
+                if rec.get('a') != want:
+                    problems.append((method, 'call %d of a sequence: angular_integration_3D received %r, expected %r '
+                                             '(options leak between Transform calls)' % (step + 1, rec.get('a'), want)))
+                if topt_in != topt or (aio is not None and aio_in != aio):
+                    problems.append((method, 'call %d of a sequence: the caller\'s option dict was modified' % (step + 1)))
+        defaults1 = [p.default for p in inspect.signature(abel.Transform.__init__).parameters.values()
+                     if isinstance(p.default, (dict, list))]
+        if defaults1 != defaults0:
+            problems.append(('Transform', 'a mutable default argument of Transform.__init__ was modified by a call: %r' % (defaults1,)))
     finally:
         abel.tools.center.center_image = real_center
         abel.tools.vmi.angular_integration_3D = real_ai
     for method, what in problems[:3]:
-        sn = ("import sys\nprint(%r)\nprint('re-run ./check C05 to re-evaluate the option routing clause')\nsys.exit(1)\n" % what)
+        sn = ROUTING_SNIPPET
         hits.append(Hit('options_routing', 'C05:routing:%s' % method, what, sn))
     return hits
 
@@ -405,7 +459,7 @@ def search_full_methods(ctx, rng):
 
 def run(ctx):
     rng = np.random.default_rng(ctx.seed)
-    pr = vlib.coq_props('C05')
+    pr = vlib.coq_props('C05', extra_targets=['model/TransformPipeQ.vo'])
     ctx.cov.update(obligations=len(pr['theorems']), discharged=pr['discharged'], theorems=pr['theorems'],
                    axioms=pr['axioms'],
                    checker_cmd='make -C /verif/coq props/C05.vo (coqc 8.16.1, full .vo build) + Print Assumptions',
